@@ -12,23 +12,36 @@ Definition year1 : Z := (-62135596800000000000)%Z.
 Definition inst (t : Z) : Z := if Z.eqb t 0 then year1 else t.
 Definition t_after (a b : Z) : bool := Z.ltb (inst b) (inst a).      (* a.After(b) *)
 
-(* ---- lastUpdate:
+(* ---- lastUpdate (since fix d8f84b2, R4):
      last := time.Time{}
      for item := range walk.Plan(p) {
         state := item.Value.(stater).GetState()
         if state.Start.After(last) { last = state.Start }
-        if state.End.After(last)   { last = state.End } }
-   It looks at the State of the plan, of every checks group, block, sequence and action; it does NOT
-   look at the attempts of an action.  (A nil State would panic; a plan read from a vault has none.) *)
+        if state.End.After(last)   { last = state.End }
+        if action, ok := item.Value.( *workflow.Action ); ok {
+           for _, attempt := range action.Attempts {
+              if attempt.Start.After(last) { last = attempt.Start }
+              if attempt.End.After(last)   { last = attempt.End } } } }
+   It looks at the State of the plan, of every checks group, block, sequence and action, and at every
+   attempt of every action (sequence actions and check actions).  (A nil State would panic; a plan read
+   from a vault has none.) *)
+Definition upd_time (last t : Z) : Z := if t_after t last then t else last.
+
 Definition upd_last (last : Z) (st : option state) : Z :=
   match st with
   | None => last
-  | Some s =>
-      let last := if t_after (s_start s) last then s_start s else last in
-      if t_after (s_end s) last then s_end s else last
+  | Some s => upd_time (upd_time last (s_start s)) (s_end s)
   end.
 
-Definition last_update (p : plan) : Z := fold_left upd_last (map row_state (rows_plan p)) 0%Z.
+Definition upd_attempt (last : Z) (a : attempt) : Z := upd_time (upd_time last (at_start a)) (at_end a).
+
+Definition row_attempts (r : row) : list attempt :=
+  match r with RAct _ (Some l) _ => l | _ => [] end.
+
+Definition upd_row (last : Z) (r : row) : Z :=
+  fold_left upd_attempt (row_attempts r) (upd_last last (row_state r)).
+
+Definition last_update (p : plan) : Z := fold_left upd_row (rows_plan p) 0%Z.
 
 (* filterPlans:  lastUpdate(plan).Add(r.maxAge).Before(now)   (strict) *)
 Definition stale (now maxAge : Z) (p : plan) : bool :=
